@@ -840,3 +840,24 @@ def m_scan(f, init, xs=None, length=None, reverse=False, **kw):
     it.assume(kx >= 0)
     it.assume(spec.inv(kx, xs_, init))
     return xs_, None
+
+
+class MeanT:
+    """the MEAN over the index set of a generic-element tensor (distinct from the reduction SumT on purpose)"""
+
+    def __init__(self, t):
+        self.t = t
+
+    def __neg__(self):
+        return MeanT(-self.t)
+
+
+@entry("jax.numpy.mean")
+def m_mean(x, axis=None, **kw):
+    if isinstance(x, SV) and x.elem:
+        return MeanT(to_real(x.e))
+    if isinstance(x, SV) or _is_num(x):
+        return x
+    if hasattr(x, "mean"):
+        return x.mean()
+    raise Untranslatable(f"jnp.mean of {type(x).__name__}")
